@@ -20,6 +20,7 @@ Directives (one per line, leading whitespace ignored):
       //@entry                following lines go right after the opening brace of the body
       //@exit                 ... right before the closing brace (unit-valued bodies)
       //@tail                 ... after the last top-level `;` of the body (before a tail expression)
+      //@afterblock "TOKEN" [#k] ... right after the block statement (if/match/unsafe, with its else branches) starting at the token
       //@loopafter K          ... right after the closing `}` of the K-th loop
       //@loop K [bind=ID]     ... before the `{` of the K-th loop (invariant/decreases); bind= names a for-iterator
       //@loopbody K           ... at the start of the K-th loop's body
@@ -448,6 +449,42 @@ def weave_fn(src, container, name, nth, opts, subs, mode, sig_only=False):
                 b.add(lc, body_text + '\n')
             elif kind == 'loopafter':
                 b.add(lc + 1, '\n' + body_text + '\n')
+        elif kind == 'afterblock':
+            # after the closing brace of the block statement (if / if-let / match / unsafe ... with its else branches) that starts at the token
+            m = re.match(r'\s*"((?:[^"\\]|\\.)*)"\s*(?:#(\d+))?\s*$', arg)
+            if not m:
+                raise Undecided('bad anchor syntax: %s' % arg)
+            needle = m.group(1).replace('\\"', '"')
+            kth = int(m.group(2) or 1)
+            pos = bo
+            for _ in range(kth):
+                pos = b.code_find(needle, pos + 1)
+                if pos < 0:
+                    raise Undecided('anchor lost: %r in %s::%s' % (needle, container, name))
+            j = pos
+            while True:
+                while j < len(b.text) and not (b.mask[j] and b.text[j] == '{'):
+                    j += 1
+                if j >= len(b.text):
+                    raise Undecided('anchor lost (no block): %r in %s::%s' % (needle, container, name))
+                d = 0
+                while j < len(b.text):
+                    if b.mask[j]:
+                        if b.text[j] == '{':
+                            d += 1
+                        elif b.text[j] == '}':
+                            d -= 1
+                            if d == 0:
+                                break
+                    j += 1
+                k = j + 1
+                while k < len(b.text) and b.text[k].isspace():
+                    k += 1
+                if b.text.startswith('else', k):
+                    j = k + 4
+                    continue
+                break
+            b.add(j + 1, '\n' + body_text + '\n')
         elif kind in ('before', 'after'):
             m = re.match(r'\s*"((?:[^"\\]|\\.)*)"\s*(?:#(\d+))?\s*$', arg)
             if not m:
